@@ -25,7 +25,7 @@ RULE = (
     "Cases = call histories on one set of generated functions: a supported model, 2-3 parameter variants (same "
     "structure, different values; leaves as python floats / NumPy scalars / JAX arrays), 2 batches of initial "
     "states, 2 seeds and a generated sequence of 4-14 operations from {solve(p), simulate(p, init, seed, "
-    "vf_arr_list=solve(p)), solve_and_simulate(p, init, seed), rebuild (call get_lcm_function again and switch to "
+    "vf_arr_list=solve(p)), solve_and_simulate(p, init, seed) - both with additional_targets = none or one of two fixed lists of model functions -, rebuild (call get_lcm_function again and switch to "
     "the new objects), poison (overwrite the user's params object that was passed to the previous call), twin (build, solve and simulate ANOTHER model with the same names/signatures but other table contents in between), reuse_dict (overwrite ONE long-lived params dict in place with another variant's values and pass the same object again)}. Model: a "
     "memo keyed by the VALUES of the arguments holding the first result; after every operation the result must "
     "equal the memo entry (floats 1e-12, discrete exact, identical leaf values for the three leaf types), the user's "
